@@ -155,9 +155,9 @@ def obligations(tier):
   for ports, lens in (((None, 53), [46, 54] + ([55, 58] if thorough else [])), ((68, 67), [50, 54, 282, 286] + ([288] if thorough else [])), ((None, 520), [46, 50, 66]),
                       ((None, 4789), [42, 50] + ([54, 64] if thorough else [])), ((5353, None), [54] if thorough else [46])):
     for n in lens: t.append(dict(name='ip', n=n, proto=17, ports=ports))
-  for proto, lens in ((58, [54, 58, 62, 78]), (17, [54, 62]), (6, [54, 74]), (0, [54, 62, 70]), (43, [62]), (44, [62]), (60, [62])):
+  for proto, lens in ((58, [54, 58, 62, 78]), (17, [54, 62]), (6, [54, 74]), (0, [54, 62, 70]), (43, [58, 62]), (44, [55, 58, 61, 62]), (60, [58, 62])):
     for n in lens: t.append(dict(name='ipv6', n=n, proto=proto))
-  if not thorough: t = [c for i, c in enumerate(t) if c['n'] <= 58 or c.get('ports') == (68, 67) or c.get('proto') == 1 or c['name'] in ('tcp_long', 'tcp_mptcp')]
+  if not thorough: t = [c for i, c in enumerate(t) if c['n'] <= 58 or (c['name'] == 'ipv6' and c.get('proto') in (43, 44, 60)) or c.get('ports') == (68, 67) or c.get('proto') == 1 or c['name'] in ('tcp_long', 'tcp_mptcp')]
   BOUNDS[tier] = dict(random_frame_lengths=rnd, templates=len(t), template_note="dispatch fields fixed, all other bytes (incl. every length/offset field) symbolic, "
                       "frame length = truncation point")
   return [
